@@ -936,6 +936,13 @@ func (g *gen) noteAddr(addr string, root *ssa.Alloc) {
 }
 
 // mapComps: heap components holding the content and the key set of every map with these sorts
+// mapLenFn: uninterpreted size of a key set (Array K Bool); the empty set has size 0
+func (g *gen) mapLenFn(ks string) string {
+	fn := "maplen." + sortID(ks)
+	g.declare(fn, fmt.Sprintf("(declare-fun %s ((Array %s Bool)) %s)\n(assert (= (%s ((as const (Array %s Bool)) false)) %s))", fn, ks, g.idx, fn, ks, g.idxLit(0)))
+	return fn
+}
+
 func (g *gen) mapComps(mt *types.Map) (val, has string, ks, vs string) {
 	ks, _ = g.sortOf(mt.Key())
 	vs, _ = g.sortOf(mt.Elem())
